@@ -290,6 +290,31 @@ func (x *Exec) choose(st *State, conds []*Term, tag string) int {
 		return i
 	}
 	var feas []int
+	if len(conds) == 2 && conds[1] == x.tc.Not(conds[0]) && !conds[0].cst {
+		// complementary pair: if one side is infeasible the other is feasible
+		// because the path condition itself is satisfiable
+		r := x.sol.Check(append(append([]*Term(nil), st.pc...), conds[0]))
+		if r == Unsat {
+			x.assume(st, conds[1])
+			st.pending = append(st.pending, 1)
+			st.decided = len(st.pending)
+			return 1
+		}
+		if r == Unknown {
+			st.unknownBranch = true
+		}
+		r2 := x.sol.Check(append(append([]*Term(nil), st.pc...), conds[1]))
+		if r2 == Unsat {
+			x.assume(st, conds[0])
+			st.pending = append(st.pending, 0)
+			st.decided = len(st.pending)
+			return 0
+		}
+		if r2 == Unknown {
+			st.unknownBranch = true
+		}
+		panic(forkRequest{alts: []int{0, 1}, conds: conds, tag: tag})
+	}
 	for i, c := range conds {
 		if c.IsFalse() {
 			continue
